@@ -129,6 +129,23 @@ var (
 		3911: OidTsTzRange, 3913: OidDateRange, 3927: OidInt8Range,
 	}
 
+	// pg_type.typname of the array types in arrayElemTypes (an array type is named `_` + its element type)
+	arrayTypeNames = map[int]string{
+		629: "_line", 651: "_cidr", 719: "_circle", 775: "_macaddr8",
+		791: "_money", 1000: "_bool", 1001: "_bytea", 1002: "_char",
+		1003: "_name", 1005: "_int2", 1006: "_int2vector", 1007: "_int4",
+		1008: "_regproc", 1009: "_text", 1010: "_tid", 1011: "_xid",
+		1012: "_cid", 1014: "_bpchar", 1015: "_varchar", 1016: "_int8",
+		1017: "_point", 1018: "_lseg", 1019: "_path", 1020: "_box",
+		1021: "_float4", 1022: "_float8", 1027: "_polygon", 1028: "_oid",
+		1040: "_macaddr", 1041: "_inet", 1115: "_timestamp", 1182: "_date",
+		1183: "_time", 1185: "_timestamptz", 1187: "_interval", 1231: "_numeric",
+		1270: "_timetz", 1561: "_bit", 1563: "_varbit", 2951: "_uuid",
+		3221: "_pg_lsn", 3643: "_tsvector", 3645: "_tsquery", 3807: "_jsonb",
+		3905: "_int4range", 3907: "_numrange", 3909: "_tsrange", 3911: "_tstzrange",
+		3913: "_daterange", 3927: "_int8range", 4073: "_jsonpath",
+	}
+
 	fixedLengths = map[int]int{
 		OidBool: 1, OidChar: 1, OidInt2: 2, OidInt4: 4, OidInt8: 8, OidOid: 4,
 		OidFloat4: 4, OidFloat8: 8, OidDate: 4, OidTimestamp: 8, OidTimestampTZ: 8,
@@ -142,6 +159,9 @@ var (
 // TypeName returns human-readable type name
 func TypeName(oid int) string {
 	if name, ok := typeNames[oid]; ok {
+		return name
+	}
+	if name, ok := arrayTypeNames[oid]; ok {
 		return name
 	}
 	return fmt.Sprintf("oid:%d", oid)
